@@ -111,7 +111,7 @@ class SpecMixin(object):
     if isinstance(n.op, ast.Not):
       return VBool(z3.Not(truthy(v, cx)))
     if isinstance(n.op, ast.USub) and isinstance(v, VInt):
-      return VInt(-v.t)
+      return VInt(z3.simplify(-v.t))
     raise SpecError('unary op')
 
   def sv_BoolOp(self, n, cx):
@@ -439,6 +439,34 @@ class SpecMixin(object):
     """same(a, b): identical objects / equal U terms."""
     a, b = [self.sv(x, cx) for x in n.args]
     return VBool(to_u(a, cx) == to_u(b, cx))
+
+  def spec_fn_hasattr(self, n, cx):
+    o = self.sv(n.args[0], cx)
+    name = self.const_str(n.args[1])
+    return VBool(cx.heap.fld('has!' + name, B)(to_u(o, cx)))
+
+  def spec_fn_unchanged(self, n, cx):
+    """unchanged(e): e denotes the same object now and in the old state, with the same contents."""
+    if cx.old is None:
+      raise SpecError('unchanged() outside a two-state context')
+    now, old = self.sv(n.args[0], cx), self.sv(n.args[0], cx.old)
+    if not (isinstance(now, VRef) and isinstance(old, VRef)):
+      return VBool(self.eq_values(now, old, cx))
+    h1, h0 = cx.heap, cx.old.heap
+    conj = [now.t == old.t]
+    k = now.ty.kind
+    e = z3.Const(fresh_name('u'), U)
+    i = z3.Const(fresh_name('ui'), I)
+    if k == 'set':
+      conj.append(z3.ForAll([e], h1.mem(now.t, e) == h0.mem(now.t, e)))
+    elif k in ('list', 'vtuple'):
+      conj.append(h1.len(now.t) == h0.len(now.t))
+      conj.append(z3.ForAll([i], z3.Implies(z3.And(i >= 0, i < h0.len(now.t)),
+                                           h1.item(now.t, i) == h0.item(now.t, i))))
+    elif k == 'dict':
+      conj.append(z3.ForAll([e], h1.dom(now.t, e) == h0.dom(now.t, e)))
+      conj.append(z3.ForAll([e], z3.Implies(h0.dom(now.t, e), h1.val(now.t, e) == h0.val(now.t, e))))
+    return VBool(z3.And(conj))
 
   def spec_fn_setvalue(self, n, cx):
     v = self.sv(n.args[0], cx)
